@@ -4,6 +4,7 @@
 //! note: lightning-block-sync: check_builds_on refuses headers that do not connect; find_difference_from_header returns a common ancestor of both tips and a parent-linked chain of new blocks
 //! trusted: BlockHash is an opaque identity (u64 stand-in; equality is identity, hash collisions excluded); Work / Target / Header are stubs whose ==, +, <, > follow the PartialEqSpecImpl/AddSpecImpl/PartialOrdSpecImpl models declared here; Header::work()/target() and Target::*_transition_threshold* are external_body with unconstrained results; BlockSourceError::persistent is an external_body constructor
 //! trusted: HeaderCache::look_up returns a well-formed header of the requested hash (cache invariant, assumed); the Poll implementation is instantiated (R5) by a stub Poller whose look_up_previous_header returns a header that passed check_builds_on against `header` (that is what ChainPoller does)
+//! trusted: SpvClient::poll_best_tip is extracted whole; the stub Poller's poll_chain_tip carries the contract proved for ChainPoller::poll_chain_tip in this unit (better = strictly more work, hash different from the known tip's header) plus, assumed as for look_up_previous_header, that a validated header is a block of the chain model (wf)
 //! trusted: listener part: ChainNotifier is instantiated (R5) as Notifier { header_cache, chain_listener: &mut Listener } (the real field is a shared reference to a listener with interior state); the Listener stub carries the ghost field `tip` and the trace preconditions; HeaderCache::{blocks_disconnected, block_connected} external_body (no effect on the listener); Poller::fetch_block returns a block whose hash is the requested header's (ChainPoller validates it); `drain(..).rev()` rewritten into pop() (R6); find_difference_from_header restated as an external_body callee contract in the Notifier impl (it is verified, same text, in the ChainNotifier impl above)
 //! trusted: poller part: `fn f(..) -> impl Future<Output = T> + Send + 'a { async move { B } }` is written `async fn f(..) -> T { B }` (R5, same body); ChainPoller<B, T> is instantiated with a stub block source whose get_best_block / get_header return anything (any source); Header::validate_pow / block_hash are external_body returning the uninterpreted hash_of(header); `.map_err(BlockSourceError::persistent)` gets an explicit closure (R8); Validate::T is spelled out
 //! trusted: R15 (deep slices): init::synchronize_listeners: the test that decides whether a fetched block is handed to a listener and the match that hands it over (listener = stub that records what it is told; `&L` written `&mut` as for ChainNotifier; ValidatedBlock = Box<BlockData> skeleton), the batch size / truncation pair of the fetch loop (with the function-local const MAX_BLOCKS_AT_ONCE of the production configuration), and the test that keeps the longest list of blocks to connect, verbatim as functions; fetching (futures), the header cache and the per-listener disconnection (ChainNotifier, above) are dropped and not claimed here
@@ -104,6 +105,15 @@ pub open spec fn builds_on(h: ValidatedBlockHeader, prev: ValidatedBlockHeader) 
 }
 pub struct Poller {}
 impl Poller {
+    // the contract proved for ChainPoller::poll_chain_tip below, plus (assumed, as for look_up_previous_header) that a validated header is a block of the chain model
+    #[verifier::external_body]
+    async fn poll_chain_tip(&self, best_known_chain_tip: ValidatedBlockHeader) -> (r: BlockSourceResult<ChainTip>)
+        ensures r is Ok ==> match r->Ok_0 {
+            ChainTip::Common => true,
+            ChainTip::Better(t) => t.inner.chainwork.0 > best_known_chain_tip.inner.chainwork.0 && t.block_hash != hash_of(best_known_chain_tip.inner.header) && wf(t),
+            ChainTip::Worse(t) => t.inner.chainwork.0 <= best_known_chain_tip.inner.chainwork.0 && t.block_hash != hash_of(best_known_chain_tip.inner.header) && wf(t),
+        }
+    { unimplemented!() }
     #[verifier::external_body]
 	async fn look_up_previous_header(&mut self, header: &ValidatedBlockHeader) -> (r: BlockSourceResult<ValidatedBlockHeader>)
         ensures r is Ok ==> r->Ok_0.block_hash == header.inner.header.prev_blockhash && wf(r->Ok_0)
@@ -352,6 +362,19 @@ async fn synchronize_listener_via_notifier(header_cache: &mut HeaderCache, chain
 { unimplemented!() }
 pub struct SpvClient { pub chain_tip: ValidatedBlockHeader, pub chain_poller: Poller, pub header_cache: HeaderCache, pub chain_listener: Listener }
 impl SpvClient {
+//@extract lightning-block-sync/src/lib.rs :: impl SpvClient :: fn poll_best_tip
+//@ret r
+//@requires
+    old(self).chain_tip.block_hash == old(self).chain_listener.tip@, wf(old(self).chain_tip), old(self).chain_tip.block_hash == hash_of(old(self).chain_tip.inner.header),
+//@ensures P C20 a-poll-moves-the-listener-only-towards-a-tip-the-poller-reported-as-better-and-otherwise-leaves-listener-and-recorded-tip-untouched
+    final(self).chain_tip.block_hash == final(self).chain_listener.tip@,
+    (r is Err || (r is Ok && !(r->Ok_0.0 is Better))) ==> final(self).chain_listener.tip@ == old(self).chain_listener.tip@ && final(self).chain_tip == old(self).chain_tip,
+    (r is Ok && !(r->Ok_0.0 is Better)) ==> !r->Ok_0.1,
+//@mutant listener_moved_to_a_tip_with_no_more_work
+    false }, };
+//@with
+    self.update_chain_tip(chain_tip).await }, };
+//@end
 //@extract lightning-block-sync/src/lib.rs :: impl SpvClient :: fn update_chain_tip
 //@rw R5
     let mut chain_notifier = ChainNotifier { header_cache: &mut self.header_cache, chain_listener: &*self.chain_listener, }; match chain_notifier .synchronize_listener($args) .await
@@ -444,8 +467,8 @@ impl ChainPoller {
 //@ensures P C20 the-poller-reports-a-tip-as-better-only-with-strictly-more-chainwork-and-only-after-validating-it
     r is Ok ==> match r->Ok_0 {
         ChainTip::Common => true,
-        ChainTip::Better(t) => t.inner.chainwork.0 > best_known_chain_tip.inner.chainwork.0 && t.block_hash == hash_of(t.inner.header),
-        ChainTip::Worse(t) => t.inner.chainwork.0 <= best_known_chain_tip.inner.chainwork.0 && t.block_hash == hash_of(t.inner.header),
+        ChainTip::Better(t) => t.inner.chainwork.0 > best_known_chain_tip.inner.chainwork.0 && t.block_hash == hash_of(t.inner.header) && t.block_hash != hash_of(best_known_chain_tip.inner.header),
+        ChainTip::Worse(t) => t.inner.chainwork.0 <= best_known_chain_tip.inner.chainwork.0 && t.block_hash == hash_of(t.inner.header) && t.block_hash != hash_of(best_known_chain_tip.inner.header),
     },
 //@mutant equal_work_tip_reported_better
     chain_tip.chainwork > best_known_chain_tip.chainwork
